@@ -101,7 +101,12 @@ pub fn gen_c13(base_seed: u64, batch: &str, run: u64, rng: &mut Rng) -> Scenario
         threads[0].push(Op::Drop { slot: s });
     }
     if !original_first {
-        threads[0].push(Op::Drop { slot: 0 });
+        // the original ends by drop, verify() or report(): each releases what it lent, once
+        threads[0].push(match rng.weighted(&[50, 30, 20]) {
+            0 => Op::Drop { slot: 0 },
+            1 => Op::Verify { slot: 0 },
+            _ => Op::Report { slot: 0 },
+        });
     }
     Scenario {
         prop: "C13".into(),
@@ -508,6 +513,19 @@ pub fn check_c09(scn: &Scenario) -> Checked {
                         "verify-on-clone-panics",
                         if matches!(op, Op::Verify { .. }) { "verify" } else { "no_verify_in_drop" },
                         format!("{op:?} on a clone must panic, got {:?}", o.result),
+                    ));
+                }
+            }
+            (Op::Report { .. }, Some(false)) => {
+                // only the original verifies: handing a clone to report() consumes the clone, nothing
+                // is judged (no live-clone / wrong-thread panic, no FAILURE for unmet expectations)
+                *stats.probes.entry("report_on_a_clone".into()).or_default() += 1;
+                if !matches!(o.result, OpResult::ExitCode(true)) {
+                    violations.push(v(
+                        "C09",
+                        "only-the-original-verifies",
+                        "report-on-clone",
+                        format!("report() on a clone must not verify anything (the original does, once); it gave {:?}", o.result),
                     ));
                 }
             }
